@@ -842,7 +842,47 @@ fn run_early_stop(
             }
             StopKind::Intrinsic => {}
         }
+        // the last stop point of a pipe case: the writer of the pipe stalls after a drawn number of bytes (the pipe
+        // stays open) and, once everybody waits, the stop event arrives - the process must still end
+        let stalled_input = matches!(kind, StopKind::StopEvent)
+            && i + 1 == n_points
+            && n_points >= 3
+            && base.input_mode == crate::exec::InputMode::Pipe
+            && base.input.len() > 200;
+        if stalled_input {
+            v.stop_at_step = None;
+            v.io.stop_at_input_byte = None;
+            v.io.stall_at = Some(64 + rng.below(base.input.len() as u64 - 64));
+        }
         let r = ex.exec(&v);
+        if stalled_input {
+            ex.fault("input_stalls_then_stop_event");
+            let stopped_while_stalled = r.outcome.probes.get("stop_event_while_input_stalled").copied().unwrap_or(0) > 0;
+            if stopped_while_stalled && r.outcome.deadlock.is_some() {
+                out.fail = Some(Fail::new(
+                    "early-stop",
+                    "stop-event-while-input-stalled",
+                    format!(
+                        "the input stalled after {} bytes (pipe still open); when every thread was waiting the stop event arrived (the store the signal handler performs) and nobody reacted: {} [cmd: {}]",
+                        v.io.stall_at.unwrap_or(0),
+                        r.outcome.deadlock.clone().unwrap_or_default(),
+                        v.cmdline()
+                    ),
+                ));
+                return out;
+            }
+            if !stopped_while_stalled && r.outcome.deadlock.as_deref().map_or(false, |d| d.contains("waits Never")) {
+                // everybody waits for input that does not come and no stop event was delivered (the program has
+                // not registered a stop flag at that point): waiting is what it should do
+                ex.probe("input_stalled_without_stop_event");
+                continue;
+            }
+            if let Some(f) = check_orderly(&r) {
+                out.fail = Some(f);
+                return out;
+            }
+            continue;
+        }
         if let StopKind::StdoutFails { .. } = kind {
             ex.probe(match r.io.stdout_failed_writes_first_thread {
                 0 => "stdout_failed_writes_by_producer=0",
